@@ -36,6 +36,12 @@ class Tup:
 def F(x): return Fraction(x).limit_denominator(64)
 
 
+def LOG(l): return ('log', Fraction(l)) if Fraction(l) != 0 else Fraction(0)        # a value that SHIFTS by l * ln(lambda) (free energies / lambda: exp of it has degree l)
+
+
+def is_log(d): return isinstance(d, tuple) and len(d) == 2 and d[0] == 'log'
+
+
 def join(a, b):
     """degree of a value that may be either a or b (same name, accumulator): None if incompatible"""
     if a == ZERO: return b
@@ -46,6 +52,7 @@ def join(a, b):
 
 def show(d):
     if isinstance(d, Tup): return '(' + ', '.join(show(x) for x in d.items) + ')'
+    if is_log(d): return 'additive %s ln(lambda)' % d[1]
     return str(d)
 
 
@@ -86,6 +93,7 @@ class Checker:
         self._stmt = None
         for p, d in contract.get('params', {}).items(): self.env[p] = d
         self.nret = 0
+        self.attr_now = {}          # self.<field> assigned in this function -> current degree (fields may be re-used, e.g. normalised in place)
 
     # ---- obligations
     def fail(self, node, msg):
@@ -110,12 +118,13 @@ class Checker:
 
     def e_Name(self, e):
         if e.id in self.env: return self.env[e.id]
-        if e.id in ('True', 'False', 'None', '__debug__'): return NA
+        if e.id in ('True', 'False', 'None', '__debug__', 'complex', 'float', 'int', 'bool', 'object'): return NA
         if e.id in self.c.get('globals', {}): return self.c['globals'][e.id]
         raise Undecided('degree typing: name %r used before assignment / not declared (line %d)' % (e.id, e.lineno))
 
     def e_Attribute(self, e):
         text = ast.unparse(e)
+        if text in self.attr_now: return self.attr_now[text]          # assigned earlier in this function: its current degree
         if text in self.c.get('fields', {}): return self.c['fields'][text]
         if text.startswith('self.'):
             return self.c.get('default_field', Fraction(0)) if text.split('.')[1] not in self.c.get('na_fields', ()) else NA
@@ -134,16 +143,33 @@ class Checker:
 
     def e_UnaryOp(self, e):
         d = self.ev(e.operand)
+        if is_log(d) and isinstance(e.op, ast.USub): return LOG(-d[1])
         return NA if isinstance(e.op, ast.Not) else d
 
     def e_BinOp(self, e):
         a, b = self.ev(e.left), self.ev(e.right)
-        if isinstance(a, Tup) or isinstance(b, Tup): raise Undecided('degree typing: tuple arithmetic (line %d)' % e.lineno)
+        if isinstance(a, Tup) or isinstance(b, Tup):
+            flat = [x for t in (a, b) for x in (t.items if isinstance(t, Tup) else [t])]
+            if all(x in (NA, ZERO, Fraction(0)) for x in flat): return NA        # index tuples built by concatenation / repetition
+            raise Undecided('degree typing: tuple arithmetic (line %d)' % e.lineno)
         if a == NA and b == NA: return NA
         op = e.op
+        if is_log(a) or is_log(b):
+            la = a[1] if is_log(a) else (Fraction(0) if a in (Fraction(0), ZERO) else None)
+            lb = b[1] if is_log(b) else (Fraction(0) if b in (Fraction(0), ZERO) else None)
+            if isinstance(op, (ast.Add, ast.Sub)):
+                if la is None or lb is None:
+                    self.fail(e, 'sum of a free-energy-like value (shifts with ln lambda) and a value of rate degree %s' % show(b if la is not None else a)); return a if is_log(a) else b
+                return LOG(la + lb if isinstance(op, ast.Add) else la - lb)
+            if isinstance(op, (ast.Mult, ast.Div)) and ((la == 0 or lb == 0) and None not in (la, lb)):
+                # (dimensionless) x (value with zero shift): still no shift
+                return Fraction(0)
+            self.fail(e, 'product / quotient involving a value that shifts with ln(lambda): `%s`' % ast.unparse(e)[:80]); return Fraction(0)
         if isinstance(op, (ast.Add, ast.Sub)):
             if a == NA or b == NA:
-                self.fail(e, 'sum of a rate-carrying value and a non-numeric one'); return a if b == NA else b
+                other = b if a == NA else a
+                if other in (Fraction(0), ZERO): return NA          # index / count arithmetic with dimensionless integers
+                self.fail(e, 'sum of a value of rate degree %s and a non-numeric one' % show(other)); return other
             j = join(a, b)
             if j is None:
                 self.fail(e, 'sum / difference of rate degrees %s and %s in `%s`' % (show(a), show(b), ast.unparse(e)[:80])); return a
@@ -242,6 +268,12 @@ class Checker:
         args = e.args
         kw = {k.arg: k.value for k in e.keywords if k.arg}
         name = None
+        if not isinstance(f, (ast.Name, ast.Attribute)):
+            text = ast.unparse(f)
+            if text in self.c.get('callees', {}):
+                for a in args: self.ev(a)
+                return self.c['callees'][text]
+            raise Undecided('degree typing: call of %s (line %d) has no contract' % (text[:40], e.lineno))
         if isinstance(f, ast.Name): name = f.id
         elif isinstance(f, ast.Attribute):
             text = ast.unparse(f)
@@ -253,9 +285,12 @@ class Checker:
                 name = f.attr
             else:
                 base = self.ev(f.value)
-                if f.attr in ('copy', 'conj', 'real', 'flatten', 'ravel', 'reshape', 'transpose', 'sum', 'max', 'min', 'trace', 'astype', 'tolist', 'dot', 'get', 'values', 'items', 'keys'):
+                if f.attr in ('copy', 'conj', 'real', 'flatten', 'ravel', 'reshape', 'transpose', 'sum', 'max', 'min', 'trace', 'astype', 'tolist', 'dot', 'get', 'values', 'items', 'keys',
+                              'ldot', 'rdot', 'irotate', 'rotate', 'reduce', 'separate', 'truncate', 'nl', 'inv'):
                     ds = [self.ev(a) for a in args]
-                    if f.attr == 'dot': return _add([base] + ds)
+                    if f.attr in ('dot', 'ldot', 'rdot'): return _add([base] + ds)
+                    if f.attr == 'inv': return ZERO if base == ZERO else (-base if isinstance(base, Fraction) else base)
+                    if f.attr == 'nl': return NA
                     if f.attr == 'items': return Tup([NA, base])
                     return base
                 if f.attr in ('append', 'extend', 'add', 'update', 'pop', 'remove', 'fill', 'sort', 'index', 'count', 'iszero', 'format', 'join', 'startswith'):
@@ -280,7 +315,12 @@ class Checker:
         if name in POLY: return ZERO
         if name in DIMLESS: return Fraction(0)
         if name in INDEXY: return NA
+        if name == 'prod':
+            if ds[0] in (Fraction(0), ZERO, NA): return ds[0]
+            raise Undecided('degree typing: np.prod of values of rate degree %s (the number of factors decides the degree) at line %d' % (show(ds[0]), e.lineno))
         if name == 'sqrt': return ZERO if ds[0] == ZERO else (ds[0] / 2 if ds[0] != NA else NA)
+        if name == 'exp' and len(ds) == 1 and is_log(ds[0]): return ds[0][1]                    # exp(F + l ln lambda) = lambda^l exp(F)
+        if name == 'log' and len(ds) == 1 and isinstance(ds[0], Fraction): return LOG(ds[0]) if ds[0] != 0 else Fraction(0)
         if name in ('exp', 'log', 'log10', 'cos', 'sin', 'arctan2', 'tanh'):
             for d in ds:
                 if d not in (Fraction(0), ZERO, NA): self.fail(e, 'argument of %s carries rate degree %s (must be dimensionless)' % (name, show(d)))
@@ -321,15 +361,9 @@ class Checker:
     # ---- statements
     def bind(self, target, d, node):
         if isinstance(target, ast.Name):
-            old = self.env.get(target.id)
-            if old is None or old == ZERO: self.env[target.id] = d; return
-            if isinstance(old, Tup) or isinstance(d, Tup):
-                self.env[target.id] = d; return
-            if old == NA or d == NA:
-                if old != d and d != ZERO: self.fail(node, 'name %s changes between a numeric and a non-numeric value' % target.id)
-                return
-            j = join(old, d)
-            if j is None: self.fail(node, 'name %s had rate degree %s and is re-assigned a value of degree %s' % (target.id, show(old), show(d)))
+            # flow-sensitive: a name may be re-used for a value of another degree (normalised in place, say); what must not happen is a
+            # degree that depends on how often a loop ran -- checked by comparing the environment after two passes over every loop body
+            self.env[target.id] = d
             return
         if isinstance(target, (ast.Tuple, ast.List)):
             if isinstance(d, Tup) and len(d.items) == len(target.elts):
@@ -350,10 +384,7 @@ class Checker:
             if join(base, d) is None: self.fail(node, 'value of rate degree %s stored into %s, which has degree %s' % (show(d), ast.unparse(target.value)[:40], show(base)))
             return
         if isinstance(target, ast.Attribute):
-            text = ast.unparse(target)
-            want = self.c.get('fields', {}).get(text)
-            if want is not None and d not in (ZERO, NA) and join(want, d) is None:
-                self.fail(node, 'field %s is declared with rate degree %s and is assigned degree %s' % (text, show(want), show(d)))
+            self.attr_now[ast.unparse(target)] = d          # checked against `fields_after` when the function returns
             return
         raise Undecided('degree typing: assignment target (line %d)' % node.lineno)
 
@@ -400,9 +431,18 @@ class Checker:
             self.stmt_obligation(st, 'loop-header')
             n0 = len(self.obligations)
             self.run_block(st.body)
-            # second pass: accumulators that received their degree inside the body are re-checked against it
+            # second pass: accumulators that received their degree inside the body are re-checked against it, and no name may
+            # end the second pass with another degree than the first (a degree that grows with the number of iterations)
             del self.obligations[n0:]
+            snap = {k: v for k, v in self.env.items() if not isinstance(v, Tup)}
+            self.bind(st.target, self.element_of(it, st.iter), st)
             self.run_block(st.body)
+            self._failed = []
+            for k, v in snap.items():
+                w = self.env.get(k)
+                if w is not None and not isinstance(w, Tup) and v != ZERO and w != ZERO and w != v:
+                    self.fail(st, 'the degree of %s depends on the number of iterations (%s after one pass, %s after two)' % (k, show(v), show(w)))
+            self.stmt_obligation(st, 'loop-carried-degrees-stable')
             if st.orelse: self.run_block(st.orelse)
             return
         if isinstance(st, ast.While):
@@ -430,6 +470,10 @@ class Checker:
         pre = [s for s in body if start is not None and s.lineno <= start]
         # names assigned in the skipped prefix must be declared by the contract
         self.run_block(stmts)
+        for fld, want in self.c.get('fields_after', {}).items():
+            got = self.attr_now.get(fld)
+            ok = got is not None and (got == ZERO or join(got, want) is not None)
+            self.obligations.append(('field-after:%s' % fld, ok, '' if ok else 'at exit %s has rate degree %s, contract says %s' % (fld, show(got) if got is not None else 'unassigned', show(want)), self.fn.l1))
         if self.c.get('returns') is not None and self.nret == 0:
             self.obligations.append(('return-present', False, 'no return statement reached by the checker', self.fn.l0))
         return self.obligations, pre
